@@ -4,16 +4,16 @@ from fractions import Fraction
 from harness.core import *
 from harness import gen
 from harness.props._sp_util import *
-from harness.props import C01, C02, C04
+from harness.props import C01, C02, C03, C04
 
 PID = "C12"
 LEVEL = "proof"
-CHECKFNS = C01.CHECKFNS + C02.CHECKFNS + C04.CHECKFNS
+CHECKFNS = C01.CHECKFNS + C02.CHECKFNS + C04.CHECKFNS + C03.CHECKFNS
 GLUE_PREAMBLE = ""     # C04 provides d_dtree
 ASSUMPTIONS = [
     "a presentation = permuted rule list, permuted node positions and edge order inside every rule, permuted label indices (label-table insertion order), random label names (hash order of sets), explicit/implicit/mixed ids, permuted domain values together with the factor axes",
     "each presentation's results are mapped back to the canonical indexing and judged in Coq against the canonical grammar's model (C01/C02 check functions); the Viterbi derivation is judged on the presentation itself (C04 check function)",
-    "gradients across presentations are covered by C03's check on each presentation (when C03 is registered), not here",
+    "gradients: on a subset of the grammars (weights made strictly positive) every presentation's gradient is judged by C03's dual-number check on the presentation itself; by C12_presentation (at the dual semiring) the derivative is invariant",
 ]
 
 def run(tier, seed):
@@ -92,7 +92,33 @@ def run(tier, seed):
                     vit.append((grammar_wire(spec2), weights_wire(spec2, C04.SRV), xi, C04.K_ENCL, o)); vit_meta.append(dict(case, start_asst=xi))
                 except Exception as e:
                     violations.append(Violation("viterbi harness failure %r" % (e,), case=case, corr="corr:viterbi", call="fggs.viterbi"))
+    # gradients on presentations (C03's check function on the presentation itself)
+    gvals = []; gmeta = []
+    for gi in range(max(4, n // 6)):
+        recursive = (gi % 3 == 2)
+        if recursive:
+            gspec = C03.positive(gen.random_spec(rng, recursive=True, linear=rng.choice([None, True]), allow_inf=False, max_nt=2, max_rules=2, max_nodes=3, max_edges=3, max_dom=2, dup_ext=False))
+            gspec["weights"] = {el: gen.nested_map(w, lambda v: v if v <= 1 else Fraction(1, 2)) for el, w in gspec["weights"].items()}
+        else:
+            gspec = C03.positive(gen.random_spec(rng, recursive=False, allow_inf=False, max_nt=3, max_dom=2, max_nodes=4, max_edges=3))
+        for p in range(2):
+            spec2, names, back = gen.present(gspec, rng)
+            sr = SR(["real", "log"][(gi + p) % 2], "float64", Fraction(1, 8) if recursive else Fraction(1))
+            method = ["fixed-point", "newton"][(gi + p) % 2]
+            try:
+                for cf, wire, meta in C03.grad_cases(spec2, sr, method, ids=["explicit", "implicit", "mixed"][p % 3], rng=rng, build_kwargs=dict(names=names)):
+                    gvals.append(wire); gmeta.append(dict(meta["case"], presentation_of=gen.spec_jsonable(gspec)))
+            except Exception as e:
+                violations.append(Violation("gradient computation raised %r on a presentation" % (e,), case=dict(spec=gen.spec_jsonable(spec2), semiring=repr(sr), method=method),
+                                            corr="corr:presentation-gradient", call="sum_product(...).backward()"))
     total = 0; nk = 0; skipped = 0
+    if gvals:
+        gcodes, a = C03.run_model_parallel(gvals, seed, 2)
+        nk += a; total += len(gcodes)
+        for case, c in zip(gmeta, gcodes):
+            if c in (0, 30, 31): continue
+            violations.append(Violation("gradient on a re-written grammar differs from the exact derivative (C03 verdict %d)" % c, case=case,
+                                        oracle="dual-number derivative (C03)", corr="C12 / C03", failing_input_found=(c == 1), call="sum_product(presentation).backward()"))
     for k in C01.CF:
         codes, a = run_model(C01.CF[k], nonrec[k], seed=seed, coq_sample=5, tag="c12n" + k); nk += a; total += len(codes)
         for case, c in zip(nonrec_meta[k], codes):
